@@ -19,7 +19,7 @@ def check(run):
     from elftools.common.exceptions import ELFCompressionError
     run.rule = ('cases = images of the Geometry writers: 2304 grid images (30 sections x 4 segments each: every segment type x TLS/ALLOC/NOBITS flags x '
                 'file/address displacement -1..+4 x sizes 0..3 x filesz 0..2 x memsz 0..3), 12 PT_LOAD layout images x 115 (start,size) ranges, '
-                '16 string-table images x ~50 offsets, ~300 data-path images; non-trivial = the expectation is not the empty/false answer; '
+                '16 string-table images x ~50 offsets, 4 images with a 65700-byte string (more than 1024 read chunks) x 15 offsets, ~300 data-path images; non-trivial = the expectation is not the empty/false answer; '
                 'distinct by image bytes and query')
     run.assumptions += ['.tbss special sizing and zero-size sections in PT_DYNAMIC/PT_NOTE are outside the clause groups the property names '
                         '(geometries where they matter are emitted as "not asserted")',
@@ -59,11 +59,15 @@ def check(run):
                 elif mode == 'strings':
                     sec = ef.get_section(case['secidx'])
                     for off, s in case['strings']:
+                        if isinstance(s, dict):          # run-length form of a very long string: pre ++ pat x rep
+                            s = list(s['pre']) + list(s['pat']) * s['rep']
                         want = bytes(s).decode('utf-8')
                         got = sec.get_string(off)
-                        run.count(core.digest(['str', data[:64], off]), nontrivial=bool(s))
+                        run.count(core.digest(['str', data[:64], len(data), off]), nontrivial=bool(s))
                         if got != want:
-                            run.mismatch('get_string', 'len%d' % len(s), dict(brief, offset=off), want, got)
+                            run.mismatch('get_string', 'len%d' % len(s) if len(s) < 1000 else 'long', dict(brief, offset=off),
+                                         want if len(want) < 400 else {'len': len(want), 'head': want[:32]},
+                                         got if len(got) < 400 else {'len': len(got), 'head': got[:32]})
                         # the same bytes through the linked-section route (a symbol table's stringtable is this class)
                 elif mode == 'data':
                     _data_case(run, ef, case, data, brief, ELFCompressionError)
@@ -129,8 +133,8 @@ def _data_case(run, ef, case, data, brief, ELFCompressionError):
     name = segs[1].get_interp_name()
     if name != bytes(case['interp']).decode('utf-8'):
         bad('interp_name', bytes(case['interp']).decode('utf-8'), name)
-    if segs[1].data() != bytes(case['interp']) + b'\0':
-        bad('interp.data', list(case['interp']) + [0], list(segs[1].data()))
+    if segs[1].data() != bytes(case['interpdata']):
+        bad('interp.data', list(case['interpdata']), list(segs[1].data()))
     # harness-side recompression: other deflate encodings of the same payload in the slot the spec designates
     if kind == 'zlib' and case['zslot']['len'] > 0:
         slot = case['zslot']
